@@ -6,6 +6,7 @@ import Larking.Model.Timeout
 import Larking.Model.Metadata
 import Larking.Model.StreamCodec
 import Larking.Model.Selector
+import Larking.Model.Negotiate
 namespace Larking.Driver
 open Larking.Status
 
@@ -108,7 +109,26 @@ def handleC19 : List String → Option String
       | .err k => some ("err " ++ k)
   | _ => none
 
-def handlers : List (List String → Option String) := [handleC05, handleC14C15, handleC17, handleC19]
+def hexList (s : String) : Option (List Bytes) :=
+  if s.isEmpty then some [] else (s.splitOn ";").mapM fun h => hexArg (if h == "-" then "" else h)
+
+def handleC04 : List String → Option String
+  | ["accept", lines] => do
+      let ls ← hexList lines
+      let specs := Negotiate.parseAccept ls
+      pure (",".intercalate (specs.map fun sp => s!"{toHex sp.value}:{sp.q.num}/{sp.q.den}"))
+  | ["negtype", lines, offers, dflt] => do
+      let ls ← hexList lines
+      let os ← hexList offers
+      let d ← hexArg dflt
+      pure (toHex (Negotiate.negotiateContentType (Negotiate.parseAccept ls) os d))
+  | ["negenc", lines, offers] => do
+      let ls ← hexList lines
+      let os ← hexList offers
+      pure (toHex (Negotiate.negotiateContentEncoding (Negotiate.parseAccept ls) os))
+  | _ => none
+
+def handlers : List (List String → Option String) := [handleC05, handleC14C15, handleC17, handleC19, handleC04]
 
 def handle (args : List String) : String :=
   match handlers.findSome? (fun h => h args) with
